@@ -1,6 +1,6 @@
 //@ unit lit_roundtrip
 //@ serves C05 C11 C04
-//@ must_verify escapequoted escape_quotes is_bareword StrIter::next StrIter::clone OffsetStrIter::next OffsetStrIter::clone verif_chars_nth0 lemma_scan_is_unesc lemma_scan_chars lemma_unesc_valid lemma_roundtrip_tail lemma_roundtrip lemma_roundtrip_chars lemma_bareword_shape lemma_ascii_single lemma_nonascii_high
+//@ must_verify escapequoted escape_quotes is_bareword StrIter::next StrIter::clone OffsetStrIter::next OffsetStrIter::clone verif_chars_nth0 lemma_scan_is_unesc lemma_scan_chars lemma_unesc_valid lemma_roundtrip_step lemma_roundtrip_tail lemma_roundtrip lemma_roundtrip_chars lemma_bareword_shape lemma_ascii_single lemma_nonascii_high
 //@ include prelude/head.rs
 use vstd::utf8::*;
 
@@ -394,6 +394,36 @@ pub proof fn lemma_esc_push(s: Seq<char>, c: char)
 
 // ---- print -> tokenize round trip of a string literal / quoted field name, for ALL texts s ----
 // Scanning  utf8(esc(s)) ++ tail  decodes exactly utf8(s), consumes exactly utf8(esc(s)), and goes on with tail.
+// one printed character: scanning utf8(esc_char(c)) ++ x decodes utf8([c]) and goes on with x
+pub proof fn lemma_roundtrip_step(c: char, x: Seq<u8>)
+    ensures scan_eq(scan(encode_utf8(esc_char(c)) + x, false),
+                    prepend(encode_utf8(seq![c]), encode_utf8(esc_char(c)).len() as int, scan(x, false)))
+{
+    let h = encode_utf8(esc_char(c));
+    if c == '"' || c == '\\' {
+        lemma_ascii_single(c);
+        lemma_ascii_single('\\');
+        lemma_encode_cons('\\', seq![c]);
+        assert(esc_char(c) =~= seq!['\\'] + seq![c]);
+        let b = c as u8;
+        assert(h =~= seq![b'\\', b]);
+        assert(h + x =~= seq![b'\\'] + (seq![b] + x));
+        lemma_scan_one(b'\\', seq![b] + x, false);
+        lemma_scan_one(b, x, true);
+    } else if is_ascii_char(c) {
+        lemma_ascii_single(c);
+        lemma_scan_one(c as u8, x, false);
+    } else {
+        lemma_nonascii_high(c);
+        lemma_scan_high(h, x, false);
+    }
+}
+
+pub proof fn lemma_prepend_prepend(a: Seq<u8>, n: int, b: Seq<u8>, m: int, r: Scan)
+    ensures scan_eq(prepend(a, n, prepend(b, m, r)), prepend(a + b, n + m, r))
+{
+}
+
 pub proof fn lemma_roundtrip_tail(s: Seq<char>, tail: Seq<u8>)
     ensures scan_eq(scan(encode_utf8(esc(s)) + tail, false),
                     prepend(encode_utf8(s), encode_utf8(esc(s)).len() as int, scan(tail, false)))
@@ -410,26 +440,12 @@ pub proof fn lemma_roundtrip_tail(s: Seq<char>, tail: Seq<u8>)
         lemma_encode_cons(c, s1);
         encode_utf8_concat(esc_char(c), esc(s1));
         lemma_roundtrip_tail(s1, tail);
-        let x = encode_utf8(esc(s1)) + tail;
         let h = encode_utf8(esc_char(c));
+        let e1 = encode_utf8(esc(s1));
+        let x = e1 + tail;
         assert(encode_utf8(esc(s)) + tail =~= h + x);
-        if c == '"' || c == '\\' {
-            lemma_ascii_single(c);
-            lemma_ascii_single('\\');
-            lemma_encode_cons('\\', seq![c]);
-            assert(esc_char(c) =~= seq!['\\'] + seq![c]);
-            let b = c as u8;
-            assert(h =~= seq![b'\\', b]);
-            assert(h + x =~= seq![b'\\'] + (seq![b] + x));
-            lemma_scan_one(b'\\', seq![b] + x, false);
-            lemma_scan_one(b, x, true);
-        } else if is_ascii_char(c) {
-            lemma_ascii_single(c);
-            lemma_scan_one(c as u8, x, false);
-        } else {
-            lemma_nonascii_high(c);
-            lemma_scan_high(h, x, false);
-        }
+        lemma_roundtrip_step(c, x);
+        lemma_prepend_prepend(encode_utf8(seq![c]), h.len() as int, encode_utf8(s1), e1.len() as int, scan(tail, false));
     }
 }
 
